@@ -428,6 +428,11 @@ def _gen_vhdx_locator(tier):
             # strings stored once and shared between entries (equal offsets with different lengths)
             for rot in range(len(vals)):
                 yield {"keys": ks, "order": "shared", "rot": rot}
+            # the locator listed and stored in front of / between the other items, which follow it directly; string pool in
+            # entry order and reversed
+            for at in (0, 1, 3):
+                for order in (list(range(n)), list(range(n))[::-1]):
+                    yield {"keys": ks, "order": order, "rot": at % len(vals), "locator_at": at}
 
 
 def _case_vhdx_locator(case, ctx):
@@ -445,16 +450,19 @@ def _case_vhdx_locator(case, ctx):
     ctx.nontrivial += 1
     with scratch_dir() as dd:
         B.build([DATA], [0], layer=1).write_to(os.path.join(dd, "base.vhdx"))
-        img = B.build([0], [None], layer=2, parent=entries)
-        # re-order the key/value data area
-        item = B.locator_item(entries, order=case["order"])
-        plain = B.locator_item(entries)
-        raw = None
-        for n, (off, kind, pl, ln) in enumerate(img.ext):
-            if kind == 0 and plain in pl:
-                raw = pl.replace(plain, item)
-                img.ext[n] = (off, kind, raw, len(raw))
-        assert raw is not None
+        if case.get("locator_at") is not None:
+            img = B.build([0], [None], layer=2, parent=entries, locator_at=case["locator_at"], locator_order=case["order"])
+        else:
+            img = B.build([0], [None], layer=2, parent=entries)
+            # re-order the key/value data area
+            item = B.locator_item(entries, order=case["order"])
+            plain = B.locator_item(entries)
+            raw = None
+            for n, (off, kind, pl, ln) in enumerate(img.ext):
+                if kind == 0 and plain in pl:
+                    raw = pl.replace(plain, item)
+                    img.ext[n] = (off, kind, raw, len(raw))
+            assert raw is not None
         img.write_to(os.path.join(dd, "child.avhdx"))
         v = VHDX(Path(dd) / "child.avhdx")
         try:
@@ -463,6 +471,9 @@ def _case_vhdx_locator(case, ctx):
             _cmp(ctx, d, "parent_locator.type", v.parent_locator.type, uuid.UUID(bytes_le=B.VHDX_LOCATOR_TYPE))
             _cmp(ctx, d, "has_parent", bool(v.has_parent), True)
             _cmp(ctx, d, "parent.id", v.parent.id, uuid.UUID(bytes_le=b"\x11" * 16))
+            _cmp(ctx, d, "size", v.size, 1 << 20)
+            _cmp(ctx, d, "sector_size", v.sector_size, 512)
+            _cmp(ctx, d, "id", v.id, uuid.UUID(bytes_le=b"\x11" * 16))
             return d
         finally:
             for x in (v, v.parent):
